@@ -23,7 +23,7 @@ func init() {
 			"R3: in each request handler the calls of lockSwap and SendEvent are cut off by premium<=PremiumLimit (premium = premium.Setting.Compute for the handler's peer parameter and the request amount, with the same operation constant as the responder action uses), by channel capacity (SpendableMsat for the paying responder, ReceivableMsat for the receiving responder, scid and amount of the same request, 64-bit *1000) and, for the paying responder, by the success result of ProbePayment; on the failing edge of each of these guards every path to a return sends a marshalled CancelMessage to the peer. " +
 			"R4: the nil return of Validate of both request types is cut off by the success edges of the pubkey hex-length-33 test, the asset-xor-network test and the scid test (helpers are inspected: decode ok and len == expected; both xor halves; three scid parts); SendEvent calls ApplyToSwapData only on the Validate==nil edge and the other edge re-enters with the invalid-message event. " +
 			"R5: in the funding (maker) responder the agreement allocation is cut off by balance >= amount + opening fee. " +
-			"Quantification is over all CFG paths of the named functions and all edges of the tables, i.e. over all request field values and policy answers. Guards, effects and replies are followed through in-module helpers (bool predicates, error-returning checks incl. `return check(x)`, reply/delivery helpers; parameters bound to arguments, depth <= 3) and through values selected into locals (phis are judged per incoming edge); a shape that cannot be interpreted yields an undecided obligation (exit 2), a violation is reported only when the whole relevant code was interpreted.",
+			"Quantification is over all CFG paths of the named functions and all edges of the tables, i.e. over all request field values and policy answers. R7: the admission answers of R6 come from the in-memory policy object; every function with an error result that reaches the whole-object replacement `*policy = *parsed` and writes no file is a reload routine, and each of its nil returns must lie behind that replacement (the store, a helper that always performs it, the nil edge or direct return of another reload routine) - a success return that skips it leaves the old allowlist in force and is reported with the condition under which it is taken; that every file-rewriting mutator reaches the reload is C25.R2. Guards, effects and replies are followed through in-module helpers (bool predicates, error-returning checks incl. `return check(x)`, reply/delivery helpers; parameters bound to arguments, depth <= 3) and through values selected into locals (phis are judged per incoming edge); a shape that cannot be interpreted yields an undecided obligation (exit 2), a violation is reported only when the whole relevant code was interpreted.",
 		NotD: "Overflow of amount*1000 and amount+fee for amounts >= 2^64/1000; truncating integer conversions inside guard operands (the engine strips them); that repeated getter calls return the same value; which wallet instance asset/network are compared with; changes of policy or premium rate between the handler's check and the action; the discarded Atoi errors inside validateScid (noted, not part of the admission conditions); error returns of premium.Setting.Compute in the handlers, which return without a cancel message (noted: an I/O fault, not a policy decision).",
 		Run:  runC11,
 	})
@@ -372,6 +372,7 @@ func runC11(c *an.Check) {
 	c.Rule("C11.R3", "request handlers: lockSwap/SendEvent are cut off by premium<=limit, channel capacity and (paying side) probe success; the failing edges send a CancelMessage")
 	c.Rule("C11.R4", "request Validate: nil return cut off by pubkey-length, asset-xor-network and scid tests; SendEvent applies a context only after Validate succeeded, else injects the invalid-message event")
 	c.Rule("C11.R5", "funding responder: agreement construction is cut off by balance >= amount + opening fee")
+	c.Rule("C11.R7", "every success return of a policy reload routine lies behind the replacement of the whole in-memory policy by the freshly parsed one (mutators reach the reload after their file write: C25.R2)")
 	c.Rule("C11.R6", "the production implementation of swap.Policy answers from the configured fields: AllowNewSwaps, MinSwapAmountMsat, AcceptAllPeers or membership in PeerAllowlist, membership in SuspiciousPeerList")
 	if !needEffects(c, fxPay, fxOpenTx, fxSendMessage, fxActionExecute,
 		"iface:swap.Policy.NewSwapsAllowed", "iface:swap.Policy.GetMinSwapAmountMsat", "iface:swap.Policy.IsPeerAllowed", "iface:swap.Policy.IsPeerSuspicious",
@@ -742,6 +743,7 @@ func c11PolicyImpl(c *an.Check) {
 	if !c.AtLeast("C11.R6", "production implementations of swap.Policy", len(impls), 1) {
 		return
 	}
+	c11Reload(c, impls)
 	for _, nt := range impls {
 		tn := nt.Obj().Name()
 		member := func(v ssa.Value, list string) (isContains bool, right bool) {
@@ -843,6 +845,196 @@ func c11PolicyImpl(c *an.Check) {
 			}
 		}
 	}
+}
+
+// ---- R7: the reload routine really reloads -----------------------------------------------------
+
+var c11FileWrites = map[string]bool{
+	"func:(*os.File).WriteString": true, "func:(*os.File).Write": true, "func:(*os.File).WriteAt": true,
+	"func:os.WriteFile": true, "func:os.Rename": true, "func:(*os.File).Truncate": true,
+}
+
+// c11Reload: the admission answers (R6) are computed from the in-memory policy
+// object; a runtime change of the policy file takes effect only through the
+// whole-object replacement `*p = *parsed`. A reload routine is a function with an
+// error result that reaches that replacement and writes no file; each of its
+// nil returns must lie behind the replacement (the store itself, a helper that
+// always performs it, the nil edge of / a direct `return` of another reload
+// routine). That every file-rewriting mutator reaches the reload on its success
+// path is C25.R2 and is not repeated here.
+func c11Reload(c *an.Check, impls []*types.Named) {
+	w := c.W
+	x := c11XOf(w)
+	nStores := 0
+	for _, nt := range impls {
+		isT := func(t types.Type) bool { return types.Identical(t, nt) }
+		isPtrT := func(t types.Type) bool {
+			p, ok := t.(*types.Pointer)
+			return ok && isT(p.Elem())
+		}
+		// whole-object replacement stores of a live object
+		repl := map[*ssa.Function][]*ssa.Store{}
+		var odd []string
+		for _, fn := range prodFuncs(w) {
+			for _, b := range fn.Blocks {
+				for _, in := range b.Instrs {
+					st, ok := in.(*ssa.Store)
+					if !ok || !isT(st.Val.Type()) || !isPtrT(st.Addr.Type()) {
+						continue
+					}
+					if _, fresh := st.Addr.(*ssa.Alloc); fresh {
+						continue // initialisation of a new object
+					}
+					src := st.Val
+					if u, isLoad := src.(*ssa.UnOp); isLoad && u.Op == token.MUL {
+						src = u.X
+					}
+					if c11CallOf(src) == nil {
+						odd = append(odd, w.FuncName(fn)+" overwrites the policy object with "+w.Term(st.Val)+" ("+w.Pos(st.Pos())+")")
+						continue
+					}
+					repl[fn] = append(repl[fn], st)
+					nStores++
+				}
+			}
+		}
+		if len(repl) == 0 {
+			continue
+		}
+		// always: helpers without error result that perform the replacement on every path
+		reaches := func(fn *ssa.Function) bool {
+			if len(repl[fn]) > 0 {
+				return true
+			}
+			for _, e := range w.Summary(fn).Effects {
+				if e.Info.Static != nil && len(repl[e.Info.Static]) > 0 {
+					return true
+				}
+			}
+			return false
+		}
+		writesFile := func(fn *ssa.Function) bool {
+			for _, e := range w.Summary(fn).Effects {
+				if c11FileWrites[e.Name] {
+					return true
+				}
+			}
+			return false
+		}
+		errIdx := func(fn *ssa.Function) int {
+			r := fn.Signature.Results()
+			for i := 0; i < r.Len(); i++ {
+				if an.IsErrorType(r.At(i).Type()) {
+					return i
+				}
+			}
+			return -1
+		}
+		var routines []*ssa.Function
+		isRoutine := map[*ssa.Function]bool{}
+		for _, fn := range prodFuncs(w) {
+			if fn.Blocks == nil || fn.Parent() != nil || !reaches(fn) || writesFile(fn) || errIdx(fn) < 0 {
+				continue
+			}
+			routines = append(routines, fn)
+			isRoutine[fn] = true
+		}
+		// replacement points of a function: blocks after which the object has been replaced
+		var always func(fn *ssa.Function, depth int) bool
+		points := func(fn *ssa.Function, depth int) (stop map[*ssa.BasicBlock]bool, cut []an.Edge, okCalls map[*ssa.Call]bool, unsure []string) {
+			stop, okCalls = map[*ssa.BasicBlock]bool{}, map[*ssa.Call]bool{}
+			for _, st := range repl[fn] {
+				stop[st.Block()] = true
+			}
+			for _, ci := range an.Calls(fn) {
+				if _, isGo := ci.(*ssa.Go); isGo {
+					continue
+				}
+				if _, isDefer := ci.(*ssa.Defer); isDefer {
+					continue
+				}
+				g := ci.Common().StaticCallee()
+				if g == nil || g.Blocks == nil || !w.InModule(g) || !reaches(g) {
+					continue
+				}
+				call, isCall := ci.(*ssa.Call)
+				switch {
+				case isRoutine[g] && isCall:
+					okE, _ := an.OkEdges(call)
+					cut = append(cut, okE...)
+					okCalls[call] = true
+				case errIdx(g) < 0 && depth < 3 && always(g, depth+1):
+					stop[ci.Block()] = true
+				default:
+					unsure = append(unsure, "calls "+w.FuncName(g)+", which may replace the policy object, in a way this rule does not interpret")
+				}
+			}
+			return
+		}
+		always = func(fn *ssa.Function, depth int) bool {
+			stop, _, _, _ := points(fn, depth)
+			if len(stop) == 0 {
+				return false
+			}
+			reach := an.ReachBlocks([]*ssa.BasicBlock{fn.Blocks[0]}, nil, stop)
+			for _, r := range an.Returns(fn) {
+				if r.Block() != fn.Recover && reach[r.Block()] && !stop[r.Block()] {
+					return false
+				}
+			}
+			return true
+		}
+		sort.Slice(routines, func(i, j int) bool { return w.FuncName(routines[i]) < w.FuncName(routines[j]) })
+		for _, fn := range routines {
+			cons := w.FuncName(fn) + " success behind replacement"
+			pos := w.Pos(fn.Pos())
+			stop, cut, okCalls, unsure := points(fn, 0)
+			cm := c11EdgeSet(cut)
+			reach := an.ReachBlocks([]*ssa.BasicBlock{fn.Blocks[0]}, cm, stop)
+			var wrong []string
+			nilable := 0
+			for _, cs := range c11Cases(fn, errIdx(fn), false) {
+				if cs.lost {
+					unsure = append(unsure, "a returned error value cannot be determined ("+w.Pos(cs.ret.Pos())+")")
+					continue
+				}
+				if !an.IsNilConst(cs.v) && x.nonNil(cs) {
+					continue
+				}
+				nilable++
+				if call := c11CallOf(cs.v); call != nil && okCalls[call] {
+					continue
+				}
+				if stop[cs.b] || !reach[cs.b] || (cs.via.From != nil && cm[cs.via]) {
+					continue
+				}
+				if an.IsNilConst(cs.v) {
+					under := an.DescribeFacts(x.at(fn, cs.b, cs.via, 0))
+					if under == "" {
+						under = "no condition"
+					}
+					wrong = append(wrong, fmt.Sprintf("the nil return at %s is reached without replacing the in-memory policy by the parsed file; it is taken under [%s]: the previous policy (allowlist, suspicious list, allow_new_swaps, minimum) stays in force although the file changed", w.Pos(cs.ret.Pos()), under))
+				} else {
+					unsure = append(unsure, "the value returned at "+w.Pos(cs.ret.Pos())+" ("+w.Term(cs.v)+") may be nil and is not the result of a reload routine")
+				}
+			}
+			switch {
+			case len(wrong) > 0:
+				c.Bad("C11.R7", cons, pos, strings.Join(wrong, " | "))
+			case len(unsure) > 0:
+				c.Unknown("C11.R7", cons, pos, strings.Join(unsure, "; "))
+			case nilable == 0:
+				c.Unknown("C11.R7", cons, pos, "no success return found")
+			default:
+				c.OK("C11.R7", cons, pos, "every nil return lies behind `*policy = *parsed` (directly, or through the success of another reload routine)")
+			}
+		}
+		for _, o := range odd {
+			c.Unknown("C11.R7", nt.Obj().Name()+" overwrite source", "-", o+": not recognised as the result of parsing the file")
+		}
+		c.AtLeast("C11.R7", "reload routines of "+nt.Obj().Name(), len(routines), 1)
+	}
+	c.AtLeast("C11.R7", "whole-object replacements of a policy implementation", nStores, 1)
 }
 
 // ---- R3: request handlers ------------------------------------------------------------------
